@@ -268,6 +268,7 @@ class Out:
         self.waived = []
         self.norefuse = {}  # fn path -> label
         self.renames = {}  # fn path -> {contract local name: current name in /repo}
+        self.body_broadcast = []
         self.honest = False
 
     def add(self, text, **meta):
@@ -590,6 +591,10 @@ def sub_markers(item, contract, out, assume=False, twin=None):
         if len(lps) != 1:
             raise Undecided("tool-error", f"{path}: ${nm} in a @proof block is ambiguous ({len(lps)} loops); write ${nm}#<loop id>")
         return f"{nm}__{lps[0]['id']}"
+    if contract is not None and not assume and out.body_broadcast:
+        # axioms broadcast inside the bodies of the verified functions only (not in the spec / lemma files, whose proofs are
+        # written against explicit instances): commutativity, so that `a * b` rewritten as `b * a` in /repo still verifies
+        start_lines.append(("    broadcast use {" + ", ".join(out.body_broadcast) + "};", None))
     if contract is not None and not assume:
         for where, anchor, lines in contract.proofs:
             lines = [(re.sub(r"\$([A-Za-z_]+)(?:#(\d+))?", _loopvar, t), lab) for (t, lab) in lines]
@@ -661,6 +666,7 @@ def sub_markers(item, contract, out, assume=False, twin=None):
     first = True
     pending_twin = None
     pending_start = False
+    pending_bb = False
     for i, l in enumerate(src_lines):
         repo_line = item["line"] + i
         if i in inserts_before:
@@ -698,7 +704,15 @@ def sub_markers(item, contract, out, assume=False, twin=None):
                     out.add_labelled(loop_spec[lid], kind="contract", fn=path, file=rel, line=repo_line)
                 if twin is not None:
                     pending_twin = f"VACUITY.{path}#loop{lid}"
+                if out.body_broadcast and contract is not None and not assume:
+                    pending_bb = True
             else:
+                if pending_bb and pending_twin is None and p.lstrip().startswith("{"):
+                    # loop bodies are verified in isolation: the body-level broadcast is repeated inside each loop body
+                    i0 = p.index("{")
+                    out.add(p[: i0 + 1] + " broadcast use {" + ", ".join(out.body_broadcast) + "};", **base_meta, line=repo_line)
+                    pending_bb = False
+                    p = p[i0 + 1 :]
                 if pending_start and pending_twin is None and p.lstrip().startswith("{"):
                     i0 = p.index("{")
                     out.add(p[: i0 + 1], **base_meta, line=repo_line)
@@ -831,6 +845,7 @@ def assemble(unit, items=None, twin=False):
         contracts.update(parse_vc(os.path.join(VERIF, "contracts", cf)))
     out = Out()
     out.honest = bool(unit.get("honest", False))
+    out.body_broadcast = list(unit.get("body_broadcast", []))
     out.add("#![feature(allocator_api)]", kind="prelude")
     out.add("#![allow(non_snake_case, non_upper_case_globals, non_camel_case_types, unused, dead_code)]", kind="prelude")
     out.add("use vstd::prelude::*;", kind="prelude")
